@@ -1600,7 +1600,11 @@ def remove_redundant_transpose_pairs_ir(graph: ir.Graph) -> None:
                 for idx, iv in enumerate(ins):
                     if iv in trans_in_map:
                         node.replace_input_with(idx, trans_in_map[iv])
-                _refresh_elementwise_output_shape(node)
+            # Refresh in graph (topological) order: a node's new shape is derived
+            # from its inputs' shapes, and ``elem_nodes`` is an unordered set.
+            for node in nodes:
+                if node in elem_nodes:
+                    _refresh_elementwise_output_shape(node)
 
             # Remove inverse transposes on outputs of the DAG.
             for t_out_node in output_transposes:
